@@ -1,11 +1,459 @@
 package schist
 
-// minerShadow is the generator's memory of miner-contract entities (filled in by minerOps).
-type minerShadow struct{}
+import (
+	"fmt"
+	"os"
+	"sort"
+	"strings"
 
-func newMinerShadow() *minerShadow { return &minerShadow{} }
+	"0chain.net/chaincore/transaction"
+	"0chain.net/core/encryption"
+	"0chain.net/smartcontract/minersc"
+	"0chain.net/smartcontract/provider"
 
-func minerOps() []OpDef { return nil }
+	"verifh/mon"
+	"verifh/snap"
+	"verifh/world"
+)
 
-// minerSetup registers the initial miners/sharders of a history.
-func minerSetup(h *Hist, mons []Monitor) {}
+// Workload generator of the miner smart contract (minersc). Files: miner_ops.go (shadow, state read-back, setup), miner_reg.go
+// (add_*, update_*_settings, *_health_check, delete_*), miner_stake.go (addToDelegatePool, deleteFromDelegatePool, collect_reward,
+// payFees), miner_gov.go (kill_*, update_settings, update_globals, add_hardfork, DKG functions, gated crashers).
+//
+// Call.Meta keys set by these ops (facts as the generator constructed them, for monitors):
+//   fn                  contract function actually called (always)
+//   provider_type       "miner" | "sharder"                       provider_id   id sent / targeted
+//   sent_provider_type  numeric provider_type in the payload (stake ops, collect_reward)
+//   staker              client id staking / unlocking / collecting; value: tokens sent with a stake
+//   settings            the settings map sent (add_*: delegate_wallet, service_charge, num_delegates; update_*_settings;
+//                       update_settings / update_globals: key -> string value)
+//   registered_before, public_key (add_*); delegate_before (update_*_settings); killed_before, registered (kill_*)
+//   owner_call          sender is the currently configured owner of the miner contract (kill_*, update_*, add_hardfork)
+//   owner_before        configured owner id before an update_settings
+//   round, input_round, is_generator, generator_id, paid_before_in_round, generator_registered, generator_killed (payFees)
+//   is_delegate_wallet, expected_delegate_reward, uncollected_service_charge (collect_reward; read from the pre state)
+//   fork {name, round}, forks [..], known_forks name->round (add_hardfork); round = round of the transaction
+//   setup               "miner" on the per-history set-up transactions
+//
+// ---- shadow ---------------------------------------------------------------------------------------------------------------
+//
+// The shadow is only used to build inputs. Whatever can be read back from the state (registration, delegate wallet, settings,
+// delegate pools, killed flag) is re-synchronised from the post snapshot after every miner-contract transaction, so the
+// generator never drifts from what the contract actually stored (e.g. after a hijacked registration).
+
+// mnNode is one magic-block node (miner or sharder).
+type mnNode struct {
+	W        *world.Wallet // operational (node) wallet
+	ID       string
+	Type     string // "miner" | "sharder"
+	PType    int    // spenum.Provider value
+	Index    int
+	Host     string
+	Port     int
+	Delegate *world.Wallet // delegate wallet the harness planned for this node
+	// read back from state
+	Registered    bool
+	Killed        bool
+	DelegateID    string // delegate wallet stored in the contract
+	NumDelegates  int
+	ServiceCharge float64
+	Stakers       []string          // delegate pool ids (client ids) currently in the stake pool
+	Hijacked      bool              // stored delegate wallet or public key is not the one the node itself would have registered
+	Rewards       map[string]uint64 // uncollected delegate rewards per pool id
+	Charge        uint64            // uncollected service charge
+	TotalStake    uint64
+}
+
+type mnStakeRef struct {
+	Node   *mnNode
+	Staker *world.Wallet
+}
+
+type mnFork struct {
+	Name  string
+	Round int64
+	At    int64 // round at which it was recorded
+}
+
+type minerShadow struct {
+	inited    bool
+	Nodes     []*mnNode
+	ByID      map[string]*mnNode
+	Delegates []*world.Wallet
+	Unlocked  []mnStakeRef // pools that were unlocked (for unlock-twice)
+	Killed    []*mnNode
+	Forks     map[string]int64 // recorded hard forks: name -> activation round (as accepted by the contract)
+	ForkLog   []mnFork
+	PaidRound int64 // last round a payFees succeeded in
+	PaidCount int   // number of successful payFees in PaidRound
+	PaidTotal int
+	WantTwice bool              // a second payFees in the current block is planned (hostile)
+	Settings  map[string]string // last accepted update_settings values
+	Globals   map[string]string // last accepted update_globals values
+}
+
+func newMinerShadow() *minerShadow {
+	return &minerShadow{ByID: map[string]*mnNode{}, Forks: map[string]int64{}, Settings: map[string]string{}, Globals: map[string]string{}}
+}
+
+const (
+	mnMiner   = 1 // spenum.Miner
+	mnSharder = 2 // spenum.Sharder
+)
+
+func (m *minerShadow) init(h *Hist) {
+	if m.inited {
+		return
+	}
+	m.inited = true
+	add := func(w *world.Wallet, typ string, pt, i int) {
+		d := h.W.AddWallet(fmt.Sprintf("mdel-%s%d", typ, i))
+		h.Names[d.ID] = d.Name
+		port := 7071 + i
+		if typ == "sharder" {
+			port = 7171 + i
+		}
+		n := &mnNode{W: w, ID: w.ID, Type: typ, PType: pt, Index: i, Host: fmt.Sprintf("%s%d.verif.test", typ, i), Port: port, Delegate: d}
+		m.Nodes = append(m.Nodes, n)
+		m.ByID[n.ID] = n
+		m.Delegates = append(m.Delegates, d)
+	}
+	for i, w := range h.W.Miners {
+		add(w, "miner", mnMiner, i)
+	}
+	for i, w := range h.W.Sharders {
+		add(w, "sharder", mnSharder, i)
+	}
+}
+
+func (m *minerShadow) ofType(typ string, pred func(*mnNode) bool) []*mnNode {
+	var out []*mnNode
+	for _, n := range m.Nodes {
+		if n.Type == typ && (pred == nil || pred(n)) {
+			out = append(out, n)
+		}
+	}
+	return out
+}
+
+func (m *minerShadow) anyNode(r *mon.Rand, pred func(*mnNode) bool) *mnNode {
+	var c []*mnNode
+	for _, n := range m.Nodes {
+		if pred == nil || pred(n) {
+			c = append(c, n)
+		}
+	}
+	if len(c) == 0 {
+		return nil
+	}
+	return c[r.Intn(len(c))]
+}
+
+func mnLive(n *mnNode) bool { return n.Registered && !n.Killed }
+
+// ---- state read-back ---------------------------------------------------------------------------------------------------------
+
+func mnNodeFrom(s snap.Snapshot, id string) *minersc.MinerNode {
+	raw, ok := s[encryption.Hash(provider.GetKey(id))]
+	if !ok {
+		return nil
+	}
+	mn := minersc.NewMinerNode()
+	if _, err := mn.UnmarshalMsg(raw); err != nil {
+		return nil
+	}
+	if mn.SimpleNode == nil || mn.StakePool == nil {
+		return nil
+	}
+	return mn
+}
+
+func mnGlobalFrom(s snap.Snapshot) *minersc.GlobalNode {
+	raw, ok := s[encryption.Hash(minersc.GlobalNodeKey)]
+	if !ok {
+		return nil
+	}
+	gn := &minersc.GlobalNode{}
+	if _, err := gn.UnmarshalMsg(raw); err != nil {
+		return nil
+	}
+	return gn
+}
+
+// mnCfg is the part of the contract configuration the generator needs to aim inside / outside the limits.
+type mnCfg struct {
+	MinStake, MaxStake uint64
+	MaxDelegates       int
+	MaxCharge          float64
+	OwnerID            string
+	Gn                 *minersc.GlobalNode // nil if the global node could not be read
+}
+
+func (h *Hist) mnCfg() mnCfg {
+	c := mnCfg{MinStake: 0, MaxStake: 2e14, MaxDelegates: 200, MaxCharge: 0.5, OwnerID: h.W.Owner.ID}
+	if gn := mnGlobalFrom(h.Cur); gn != nil {
+		c.MinStake, c.MaxStake, c.MaxDelegates, c.MaxCharge, c.OwnerID, c.Gn = uint64(gn.MinStake), uint64(gn.MaxStake), gn.MaxDelegates, gn.MaxCharge, gn.OwnerId, gn
+	}
+	return c
+}
+
+// mnOwner is the wallet currently configured as owner of the miner contract (nil if the harness holds no key for it).
+func (h *Hist) mnOwner() *world.Wallet { return h.W.Wallets[h.mnCfg().OwnerID] }
+
+// mnSync re-reads every magic-block node from a snapshot.
+func (h *Hist) mnSync(s snap.Snapshot) {
+	m := h.S.Mn
+	defer func() {
+		m.Killed = m.Killed[:0]
+		for _, n := range m.Nodes {
+			if n.Registered && n.Killed {
+				m.Killed = append(m.Killed, n)
+			}
+		}
+	}()
+	for _, n := range m.Nodes {
+		mn := mnNodeFrom(s, n.ID)
+		if mn == nil {
+			n.Registered, n.Killed, n.Stakers, n.DelegateID = false, false, nil, ""
+			continue
+		}
+		if (n.Type == "miner") != (int(mn.ProviderType) == mnMiner) {
+			// registered under the other provider type (hostile cross registration)
+			n.Registered = false
+			continue
+		}
+		n.Registered = true
+		n.Killed = mn.SimpleNode.HasBeenKilled || mn.StakePool.HasBeenKilled
+		n.DelegateID = mn.Settings.DelegateWallet
+		n.NumDelegates = mn.Settings.MaxNumDelegates
+		n.ServiceCharge = mn.Settings.ServiceChargeRatio
+		n.Hijacked = n.DelegateID != n.Delegate.ID || mn.PublicKey != n.W.PubKey
+		n.Stakers = n.Stakers[:0]
+		n.Rewards = map[string]uint64{}
+		n.Charge = uint64(mn.Reward)
+		n.TotalStake = 0
+		for id, dp := range mn.Pools {
+			n.Stakers = append(n.Stakers, id)
+			n.TotalStake += uint64(dp.Balance)
+			if dp.Reward > 0 {
+				n.Rewards[id] = uint64(dp.Reward)
+			}
+		}
+		sort.Strings(n.Stakers)
+	}
+}
+
+// mnAfter is the After hook shared by all miner ops.
+func mnAfter(extra func(h *Hist, o *TxnObs)) func(h *Hist, o *TxnObs) {
+	return func(h *Hist, o *TxnObs) {
+		if o.Outcome == "success" {
+			h.mnSync(o.Post)
+		}
+		if extra != nil {
+			extra(h, o)
+		}
+	}
+}
+
+// mnForeign returns the wallet of a provider of ANOTHER contract (blobber, validator, authorizer) that is registered in the
+// current state; its node lives in the same "provider:<id>" key space as miners and sharders. nil if there is none.
+func (h *Hist) mnForeign(r *mon.Rand) *world.Wallet {
+	var ids []string
+	for id, name := range h.Names {
+		if (strings.HasPrefix(name, "blobber") || strings.HasPrefix(name, "validator") || strings.HasPrefix(name, "authorizer")) && h.W.Wallets[id] != nil {
+			if _, ok := h.Cur[encryption.Hash(provider.GetKey(id))]; ok {
+				ids = append(ids, id)
+			}
+		}
+	}
+	if len(ids) == 0 {
+		return nil
+	}
+	sort.Strings(ids)
+	return h.W.Wallets[ids[r.Intn(len(ids))]]
+}
+
+// mnRound is the round the next submitted transaction will execute in.
+func (h *Hist) mnRound() int64 {
+	if h.BC == nil {
+		return h.Round + 1
+	}
+	return h.Round
+}
+
+// mnGenerator is the wallet of the generator of the block the next transaction will execute in (world.NewBlock rule).
+func (h *Hist) mnGenerator() *world.Wallet {
+	r := h.mnRound()
+	return h.W.Miners[int(r)%len(h.W.Miners)]
+}
+
+// mnStakerPool are the wallets that stake.
+func (h *Hist) mnStakerPool() []*world.Wallet {
+	var out []*world.Wallet
+	out = append(out, h.W.Clients...)
+	out = append(out, h.S.Mn.Delegates...)
+	out = append(out, h.W.Owner)
+	out = append(out, h.W.Miners...)
+	out = append(out, h.W.Sharders...)
+	return out
+}
+
+func mnCall(name, mut string, from *world.Wallet, fn string, value uint64, fee uint64, in interface{}, meta map[string]interface{}, after func(h *Hist, o *TxnObs)) *Call {
+	if meta == nil {
+		meta = map[string]interface{}{}
+	}
+	meta["fn"] = fn
+	c := &Call{Name: name, Mut: mut, Meta: meta, Spec: world.TxnSpec{From: from, To: minersc.ADDRESS, Value: Coin(value), Fee: Coin(fee), Type: transaction.TxnTypeSmartContract, Func: fn}}
+	if raw, ok := in.([]byte); ok {
+		c.Spec.RawInput = raw
+	} else {
+		c.Spec.Input = in
+	}
+	c.After = mnAfter(after)
+	return c
+}
+
+// mnCrashers: inputs that panic inside contract code. Smart contracts run in a goroutine without recover, so such a panic kills
+// the process (the harness child, and a real miner / sharder alike). They are off by default so that the rest of the workload keeps
+// running. VERIF_MINER_CRASHERS selects them:
+//
+//	0  add_miner / add_sharder            {"simple_miner":{..},"stake_pool":null}  from any client -> nil deref miner.go:56
+//	1  update_miner|sharder_settings      {"simple_miner":{"id":..},"stake_pool":null} from any client -> nil deref miner.go:253
+//	2  update_miner|sharder_settings      {"simple_miner":null}                    from any client -> nil deref miner.go:160
+//	3  update_miner|sharder_settings      null                                     from any client -> nil deref miner.go:253
+//	e  update_settings {"epoch":"0"} (owner), then any payFees                     -> integer divide by zero models.go:584
+//	n  update_settings {"num_sharders_rewarded":"0"} (owner), then any payFees     -> integer divide by zero fees.go:551
+//	f  update_settings {"block_reward"|"min_stake"|"max_stake"|"min_stake_per_delegate":"NaN"|"Inf"} (owner)
+//	                                                                               -> decimal "Cannot create a Decimal from NaN"
+//	r, s  update_settings {"reward_rate":"NaN"} / {"share_ratio":"NaN"} (owner): no crash, but payFees then books rewards of
+//	   about 2^63 tokens per block (r) or always fails (s)
+//
+// anything longer (e.g. "all") = all of them.
+func mnCrashers(which string) bool {
+	v := os.Getenv("VERIF_MINER_CRASHERS")
+	if v == "" {
+		return false
+	}
+	if len(v) == 1 && (v[0] >= '0' && v[0] <= '9' || v[0] >= 'a' && v[0] <= 'z') {
+		return which == v || (which == "input" && v[0] >= '0' && v[0] <= '9')
+	}
+	return true
+}
+
+// ---- payloads ------------------------------------------------------------------------------------------------------------------
+
+func mnSettings(delegate string, charge float64, nd int) map[string]interface{} {
+	return map[string]interface{}{"delegate_wallet": delegate, "service_charge": charge, "num_delegates": nd}
+}
+
+func mnPayload(id, pub, host string, port int, settings map[string]interface{}) map[string]interface{} {
+	return map[string]interface{}{
+		"simple_miner": map[string]interface{}{"id": id, "public_key": pub, "n2n_host": host, "host": host, "port": port, "path": "", "short_name": host, "build_tag": "verif"},
+		"stake_pool":   map[string]interface{}{"settings": settings},
+	}
+}
+
+func (n *mnNode) addFn() string {
+	if n.Type == "miner" {
+		return "add_miner"
+	}
+	return "add_sharder"
+}
+
+func (n *mnNode) meta() map[string]interface{} {
+	return map[string]interface{}{"provider_type": n.Type, "provider_id": n.ID}
+}
+
+// ---- setup ----------------------------------------------------------------------------------------------------------------------
+
+// minerSetup registers the magic-block miners and sharders and gives them delegates, so that payFees has somebody to pay.
+func minerSetup(h *Hist, mons []Monitor) {
+	m := h.S.Mn
+	m.init(h)
+	r := h.R.Fork("miner-setup")
+	sub := func(c *Call) *TxnObs {
+		if c == nil {
+			return nil
+		}
+		o := h.Submit(c, mons)
+		if h.TxInBlk >= 4 {
+			h.EndBlock()
+		}
+		return o
+	}
+	rich := h.W.Clients[0]
+	// delegate wallets need tokens to stake
+	for _, d := range m.Delegates {
+		sub(&Call{Name: "send", Meta: map[string]interface{}{"setup": "miner"}, Spec: world.TxnSpec{From: rich, To: d.ID, Value: Coin(3e14), Fee: 0, Type: transaction.TxnTypeSend}})
+	}
+	// leave some nodes unregistered (at least two miners and one sharder are registered): the history itself can then register
+	// them, and hostile registrations get past the "already exists" early return
+	skip := map[*mnNode]bool{}
+	miners, sharders := m.ofType("miner", nil), m.ofType("sharder", nil)
+	for _, n := range miners {
+		if r.Chance(0.3) && len(miners)-len(skip) > 2 {
+			skip[n] = true
+		}
+	}
+	ns := 0
+	for _, n := range sharders {
+		if r.Chance(0.35) && len(sharders)-ns > 1 {
+			skip[n] = true
+			ns++
+		}
+	}
+	charges := []float64{0.1, 0, 0.5, 0.25, 0.05, 0.33}
+	for _, n := range m.Nodes {
+		if skip[n] {
+			continue
+		}
+		nd := []int{10, 2, 5, 200, 3, 1}[r.Intn(6)]
+		st := mnSettings(n.Delegate.ID, charges[r.Intn(len(charges))], nd)
+		meta := n.meta()
+		meta["settings"] = st
+		meta["setup"] = "miner"
+		sub(mnCall("miner."+n.addFn(), "", n.W, n.addFn(), 0, 0, mnPayload(n.ID, n.W.PubKey, n.Host, n.Port, st), meta, nil))
+	}
+	h.EndBlock()
+	// stakes: the delegate wallet itself and one or two clients per node; one node may stay below min_stake_per_delegate
+	for _, n := range m.Nodes {
+		if !n.Registered {
+			continue
+		}
+		stakers := []*world.Wallet{n.Delegate}
+		k := 1 + r.Intn(2)
+		for i := 0; i < k && len(stakers) < n.NumDelegates; i++ {
+			stakers = append(stakers, h.W.Clients[1+r.Intn(len(h.W.Clients)-1)])
+		}
+		if n.NumDelegates < len(stakers) {
+			stakers = stakers[:n.NumDelegates]
+		}
+		for i, s := range stakers {
+			v := []uint64{1e10, 5e10, 1e11, 1e12, 123456789012, 3e13}[r.Intn(6)]
+			if i == 0 && r.Chance(0.15) {
+				v = 5e9 // alone this is below min_stake_per_delegate: no rewards until somebody else stakes
+			}
+			meta := n.meta()
+			meta["staker"] = s.ID
+			meta["setup"] = "miner"
+			sub(mnCall("miner.addToDelegatePool", "", s, "addToDelegatePool", v, 0, map[string]interface{}{"provider_type": n.PType, "provider_id": n.ID}, meta, nil))
+		}
+	}
+	h.EndBlock()
+}
+
+// minerOps is the catalogue of the miner contract.
+func minerOps() []OpDef {
+	var ops []OpDef
+	ops = append(ops, minerRegOps()...)
+	ops = append(ops, minerStakeOps()...)
+	ops = append(ops, minerGovOps()...)
+	for i := range ops {
+		inner := ops[i].Build
+		ops[i].Build = func(h *Hist, r *mon.Rand) *Call {
+			h.S.Mn.init(h)
+			return inner(h, r)
+		}
+	}
+	return ops
+}
